@@ -87,6 +87,13 @@ CHECKS = {
                 note="same runtime, same seed; nine stories and The Intercept disagree on the unchanged tree and are listed as "
                      "known findings by story",
                 technique="TLA+ trace validation (InkHostTrace/InkHostAbs): reference-compiled story as base, Rust-compiled as subject"),
+    "C03": dict(level=MC, ref="5/C03",
+                text="Every explored path of every program is replayed by two interleaved instances in one process, in two "
+                     "further processes and by the release build; TLC validates every replay against the reference system "
+                     "built from the first run (InkHostAbs rule Valid: result and error text, text, tags, choices, globals, "
+                     "visit counts, key-sorted save document, callbacks). Compiled output is hashed in five processes.",
+                note="the story seed is fixed by the harness hook; hash seeds differ per process and per HashMap instance",
+                technique="TLA+ trace validation (InkHostTrace/InkHostAbs) of repeated runs across processes and build profiles"),
 }
 
 NOT_YET = {}
